@@ -110,6 +110,89 @@ def check_instance(item) -> dict:
     return res
 
 
+def check_bs_instance(item) -> dict:
+    """item = (scenario of the BADLY SCALED family of CAGradSym.tla (EpsScale.tla), list of c values, P, e):
+    CAGrad(c)(2^e D_r J0 D_c) / 2^e with D_r, D_c = diag(2^-P rho), diag(2^-P gam) against the exact facts the
+    specification decided symbolically (instantiated at eps = 2^-P by harness/badscale.py).
+
+    Allowance of the distance clause under bad conditioning.  In exact arithmetic |A - g0| = c |g0| for ANY weights
+    w the solver returns, because A - g0 = (c |R^T 1/m| / |R^T w|) J^T w and R R^T = G / s^2 gives |R^T 1/m| = |g0|/s,
+    |R^T w| = |J^T w|/s: the clause tests the consistency of the two norms taken in the reduced space with the true
+    geometry, not the quality of the optimisation.  In floating point the normalised Gramian is reproduced by the
+    two SVDs up to an absolute error <= 64 m eps (entries <= 1), so each of the two squared norms, which are >= rho2 =
+    d2 / tr (d2 the exact squared distance of the hull to 0: both g0 and g_w lie in the hull; tr >= s^2), carries a
+    relative error <= 64 m eps / rho2; forming A = J^T(1/m + t w) adds <= m eps s (1 + c |g0| / |g_w|) <= the same
+    bound.  Hence radius_allowance(m, rho2) = 256 m eps / rho2 is ALREADY a function of the conditioning: for the
+    instances judged here (rho2 >= 1e-6) it is at most 2e-7 relative, whereas dropping a direction of relative
+    singular value sigma changes |R^T w|^2 by up to sigma^2 |w|^2 (1e-4 when sigma = 1e-2), i.e. a relative error of
+    the radius of order sigma^2 / rho2.  Measured on the unchanged tree (thorough tier, 9 159 instances x 4 c, P up to 16):
+    the worst | |A - g0| - c|g0| | is 4.8 % of the allowance (0.06 % in the quick tier's sample); the measured maximum of
+    every run is recorded in the evidence (cagrad_bs_worst_radius_error_over_allowance)."""
+    from torchjd.aggregation import CAGrad
+    from . import badscale as B
+    scn, cs, P, e = item
+    m = scn["m"]
+    f = B.facts(scn, P)
+    res = {"fails": [], "runs": 0, "zero_at_stationary": 0, "ambiguous": 0}
+    stationary, symmetric = scn["stationary"], scn["symmetric"]
+    if not stationary and f["rho2"] < B.RHO2_MIN:
+        res["ambiguous"] = len(cs)          # too close to stationarity for the code's 1e-4 guard: skipped
+        return res
+    if f["tr"] / m * Fraction(4) ** e < Fraction(10 * 10, 10 ** 8):
+        res["ambiguous"] = len(cs)          # s < 10 norm_eps cannot be excluded: outside the distance clause (DESIGN 9)
+        return res
+    Jl = B.matrix(scn, P, 0)
+    Jt = torch.tensor(Jl, dtype=torch.float64) * 2.0 ** e
+    mean = f["mean"]
+    mean_f = [float(x) for x in mean]
+    colabs = [sum(abs(Fraction(Jl[i][j])) for i in range(m)) / m for j in range(scn["n"])]
+    g0n = math.sqrt(float(f["mean2"]))
+    rho2 = float(f["rho2"])
+    sigma_ub = math.sqrt(float(f["tr"]))
+    desc = B.describe(scn, P, e)
+    for cp in cs:
+        c = float(Fraction(cp[0], cp[1]))
+        try:
+            A = CAGrad(c=c)(Jt) / 2.0 ** e
+        except Exception as ex:                              # noqa: BLE001
+            res.setdefault("raised", []).append(f"c={c}: {type(ex).__name__}: {str(ex)[:120]}")
+            continue
+        res["runs"] += 1
+        a = A.tolist()
+        if all(x == 0.0 for x in a) and any(x != 0 for x in mean):
+            if stationary:
+                res["zero_at_stationary"] += 1
+            else:
+                res["fails"].append({"kind": "zero_not_stationary", "c": cp, "exp": e, "P": P,
+                                     "what": f"CAGrad({c}) on {desc} returned the zero vector but no convex combination of the "
+                                             f"rows vanishes (squared distance of the hull to 0 = {float(f['d2']):.6g}, "
+                                             f"{rho2:.3g} of the trace)"})
+            continue
+        if cp[0] == 0:
+            # weights are exactly 1/m: A_j is the float sum of m products, |A_j - mean_j| <= 8 eps mean_i |J_ij|
+            if not all(math.isfinite(x) and abs(Fraction(x) - q) <= 8 * Fraction(EPS64) * ca
+                       for x, q, ca in zip(a, mean, colabs)):
+                res["fails"].append({"kind": "c0_not_mean", "c": cp, "exp": e, "P": P,
+                                     "what": f"CAGrad(0) on {desc}: output / 2^{e} = {a}, the mean row is {mean_f}"})
+            continue
+        dist = math.sqrt(sum((x - y) ** 2 for x, y in zip(a, mean_f)))
+        want = c * g0n
+        tol = radius_allowance(m, rho2) * max(want, 1e-300) + 64 * EPS64 * (g0n + sigma_ub)
+        if not abs(dist - want) <= tol:
+            res["fails"].append({"kind": "radius", "c": cp, "exp": e, "P": P,
+                                 "what": f"CAGrad({c}) on {desc}: |A - g0| = {dist:.12g} but c|g0| = {want:.12g} "
+                                         f"(allowance {tol:.3e}, d2/tr = {rho2:.3g}); A / 2^{e} = {a}"})
+            continue
+        res["margin"] = max(res.get("margin", 0.0), abs(dist - want) / tol)
+        if symmetric and g0n > 0:
+            dev = math.sqrt(sum((x - (1 + c) * y) ** 2 for x, y in zip(a, mean_f)))
+            if dev > 2 * math.sqrt(2 * c * SOLVER_DELTA) * sigma_ub:
+                res["fails"].append({"kind": "symmetric", "c": cp, "exp": e, "P": P,
+                                     "what": f"CAGrad({c}) on the symmetric instance {desc} returned {a}, expected (1+c) g0 = "
+                                             f"{[(1 + c) * y for y in mean_f]} (deviation {dev:.3e})"})
+    return res
+
+
 def random_observations(seed: int, matrices: list, seeds_per: int) -> list[dict]:
     """Random(): per (matrix, seed) the discrete observations RandomW.tla judges."""
     from torchjd.aggregation import Random
